@@ -816,6 +816,10 @@ func DominatingConds(ins ssa.Instruction) []struct {
 
 // ---------- NILDEREF: a (pointer|interface, error) result is dereferenced only where the error is known nil ----------
 
+// NilDerefMaxStates bounds the exploration per function in NilDerefGuard (0 = the explorer's default); repository-wide
+// sweeps lower it and report truncated functions as not examined.
+var NilDerefMaxStates = 0
+
 // NilDerefGuard examines, in each function of fns, every call whose results are (T, …, error) with T a pointer or
 // (non-error) interface type: on every path, a *dereferencing* use of the T result (method call with it as receiver,
 // field access, load through it) needs the call's error to be known nil — or the value itself known non-nil. Passing
@@ -873,7 +877,7 @@ func (c *Check) NilDerefGuard(rule, constructPrefix string, fns []*ssa.Function,
 		var badAt ssa.Instruction
 		var badCall *ssa.Call
 		derefs := 0
-		ex := &Explorer{P: c.P}
+		ex := &Explorer{P: c.P, MaxStates: NilDerefMaxStates}
 		ex.OnInstr = func(s *State, ins ssa.Instruction) bool {
 			var recv []ssa.Value
 			switch x := ins.(type) {
